@@ -20,7 +20,7 @@ from .character_classes import CharacterClass, I_SHORTCUT_REPLACE, C_SHORTCUT_RE
 HYPHENS_PATTERN = re.compile(r'(?<!\\)--')
 INVALID_HYPHEN_PATTERN = re.compile(r'[^\\]-[^\\]-[^\\]')
 DIGITS_PATTERN = re.compile(r'\d+')
-QUANTIFIER_PATTERN = re.compile(r'{\d+(,(\d+)?)?}')
+QUANTIFIER_PATTERN = re.compile(r'{[0-9]+(,([0-9]+)?)?}')
 FORBIDDEN_ESCAPES_NOREF_PATTERN = re.compile(
     r'(?<!\\)\\(U[\da-fA-F]{8}|u[\da-fA-F]{4}|x[\da-fA-F]{2}|o{\d+}|\d+|A|Z|z|B|b|o|0\d{2})'
 )
